@@ -177,6 +177,7 @@ RULES = [
     ("C06-R2", "LIMIT early exits of the member loop apply to unbuffered output only [shared with C06]", lambda ctx: __import__("c06").r2(ctx)),
     ("C04-R1", "stored unix modes of members: permission and type predicates [shared with C04]", lambda ctx: __import__("c04").r1(ctx)),
     ("C04-R2", "mode string of members [shared with C04]", lambda ctx: __import__("c04").r2(ctx)),
+    ("C01-R7", "the archive branch never leaves the entry loop: ordinary rows are unaffected [shared with C01]", lambda ctx: __import__("c01").r7(ctx)),
 ]
 
 EXPLANATION = (
@@ -187,7 +188,8 @@ EXPLANATION = (
     "(unbuffered, C06-R2) or on a closed pipe; FileInfo takes name, uncompressed size, unix mode and last-modified "
     "from the member; every column declared available for members has an arm that reads the member, unavailable "
     "columns return empty before the match; member name/path are printed `[archive] member`. Zip parsing and the "
-    "clock-dependent to_local_datetime are not decided.")
+    "clock-dependent to_local_datetime are not decided."
+    ' The archive branch adds no way out of the entry loop (exit-class whitelist shared with C01).')
 ASSUMPTIONS = ["rustc's HIR faithfully represents the source; exporter and rule scripts are correct",
                "zip::ZipArchive enumerates each member exactly once for indices 0..len()"]
 NOT_DECIDED = ["zip parsing", "to_local_datetime (with_month/with_day chain on Local::now() is clock dependent)", "rows on real archives"]
